@@ -27,6 +27,27 @@ def run(ctx):
     })
     files = ["hypergraphx/dynamics/contagion.py", "hypergraphx/dynamics/randwalk.py"]
     ctx.add_sites(res, ctx.sites(rules=("C-SIG", "K-ARG"), files=files))
+    # ---- D-SYNC: the update is synchronous: inside the sweep over the nodes, the state table whose entries of OTHER nodes are read
+    #      (`I_old[neigh] == 1`) is not written (`I_old[node] = 0`): a recovery written straight into it is seen by the nodes that come
+    #      later in the same sweep
+    with res.guard("D-SYNC"):
+        res.rules["D-SYNC"] = "inside one sweep the state table that is read for the neighbours is never written (recoveries and infections take effect together, after the sweep)"
+        cv_ = ctx.view("contagion.simplicial_contagion")
+        n_sw = 0
+        for lp_ in [n for n in walk_no_nested(cv_.fi.node) if isinstance(n, ast.For) and isinstance(n.target, ast.Name) and cv_.enclosing(n, (ast.While, ast.For)) is not None]:
+            node_ = lp_.target.id
+            subs = [x for x in ast.walk(lp_) if isinstance(x, ast.Subscript) and isinstance(x.value, ast.Name)]
+            read_other = {x.value.id for x in subs if isinstance(x.ctx, ast.Load) and not (isinstance(x.slice, ast.Name) and x.slice.id == node_)}
+            stores = [x for x in subs if isinstance(x.ctx, ast.Store) and x.value.id in read_other]
+            if not read_other:
+                continue
+            n_sw += 1
+            if stores:
+                res.violation("D-SYNC", cv_.fi.short, norm(cv_.stmt_of(stores[0]) or stores[0])[:80], stores[0].value.id, f"`{norm(stores[0])}` is written during the sweep over the nodes, and `{stores[0].value.id}` is also what the sweep reads for the OTHER nodes: a node updated earlier in the sweep (a recovery) already counts as changed for the nodes that follow - the update is no longer synchronous", loc(cv_.fi, stores[0]))
+            else:
+                res.ok("D-SYNC", cv_.fi.short, f"for {node_} in {norm(lp_.iter)[:30]}", "read-table-not-written", loc(cv_.fi, lp_))
+        if n_sw == 0:
+            res.unknown("D-SYNC", cv_.fi.short, "for node in nodes", "read-table-not-written", "no sweep that reads the state of other nodes was recognised", loc(cv_.fi, cv_.fi.node))
     with res.guard("simplicial contagion: double buffer, orders, series, loop guard"):
         v = ctx.view("contagion.simplicial_contagion")
         f = v.fi.short
